@@ -9,6 +9,11 @@ import HcipyVerif.Model.Coronagraph
 * `lyot Fre Fim Bre Bim [mre] [mim] SRE SIM [Ere] [Eim]` (matrices `[row];[row]`, stop `-` `-` for none)
 * `occulted Fre Fim Bre Bim [mre] [mim] [Ere] [Eim]`
 * `levels NY NX DX DY Q S W` → level bookkeeping of the multi-scale coronagraphs
+* `pmat T Tinv [c] [w] MU` → stores the real object's `transformation` (`n` rows `[..];[..]`),
+  `transformation_inverse` (`k` rows), `coeffs`, grid weights; answers the defects of the theorem
+  hypotheses: `ok n=N k=K leftinv=max|T⁺T−I| adj=max|T⁺−μTᵀW|`
+* `pmodes ORDER [a] [x] [y]` → `ok nulls=max|perfectMat(mode)| scale=max|mode|` (hypothesis `NullsModes`)
+* `papply [E]` → `ok [perfectMat T T⁺ c E] pin=powerW pout=powerW`
 -/
 namespace HcipyVerif.Driver.C09
 open HcipyVerif.Proto HcipyVerif.Coronagraph
@@ -16,6 +21,12 @@ open HcipyVerif.Proto HcipyVerif.Coronagraph
 structure St where
   n : Nat := 0
   basis : List (Vec Rat n) := []
+  pn : Nat := 0
+  pk : Nat := 0
+  pT : Vector (Vec Rat pk) pn := Vector.ofFn fun _ => Vector.ofFn fun _ => 0
+  pTinv : Vector (Vec Rat pn) pk := Vector.ofFn fun _ => Vector.ofFn fun _ => 0
+  pc : Vec Rat pk := Vector.ofFn fun _ => 0
+  pw : Vec Rat pn := Vector.ofFn fun _ => 0
 
 def ofList (l : List Rat) (n : Nat) : Vec Rat n :=
   let a := l.toArray
@@ -37,6 +48,15 @@ def isZero {n : Nat} (v : Vec Rat n) : Bool := v.toList.all fun q => q == 0
 def cmat (re im : List (List Rat)) (m n : Nat) : Vector (Vec CRat n) m :=
   let rows : Array (Vec CRat n) := ((re.zip im).map fun (r, i) => cvec r i n).toArray
   Vector.ofFn fun k => rows.getD k.1 (Vector.replicate n 0)
+
+/-- a real matrix with `m` rows of length `n` -/
+def rmat (ll : List (List Rat)) (m n : Nat) : Vector (Vec Rat n) m :=
+  let rows : Array (Vec Rat n) := (ll.map fun r => ofList r n).toArray
+  Vector.ofFn fun k => rows.getD k.1 (Vector.replicate n 0)
+
+def rabs (q : Rat) : Rat := if q < 0 then -q else q
+
+def maxAbs (l : List Rat) : Rat := l.foldl (fun acc q => max acc (rabs q)) 0
 
 def rect (ll : List (List Rat)) (n : Nat) : Bool := ll.all (·.length == n)
 
@@ -97,6 +117,37 @@ def step (st : St) : List String → St × String
       let i := residual st.basis (ofList im st.n)
       (st, s!"ok {showRatList (toList r)} {showRatList (toList i)} power={showRat (power r + power i)}")
     | _, _ => (st, "bad-op")
+  | ["pmat", t, ti, c, w, mu] =>
+    match parseRatLists? t, parseRatLists? ti, parseRatList? c, parseRatList? w, parseRat? mu with
+    | some t, some ti, some c, some w, some mu =>
+      let n := t.length
+      let k := ti.length
+      if c.length != k || w.length != n || !rect t k || !rect ti n then (st, "bad-op") else
+      let T := rmat t n k
+      let Tinv := rmat ti k n
+      let wv := ofList w n
+      let li := maxAbs ((List.finRange k).flatMap fun j => (List.finRange k).map fun l => leftInvDefect T Tinv j l)
+      let ad := maxAbs ((List.finRange k).flatMap fun j => (List.finRange n).map fun i => adjointDefect T Tinv wv mu j i)
+      ({ st with pn := n, pk := k, pT := T, pTinv := Tinv, pc := ofList c k, pw := wv },
+        s!"ok n={n} k={k} leftinv={showRat li} adj={showRat ad}")
+    | _, _, _, _, _ => (st, "bad-op")
+  | ["pmodes", o, a, x, y] =>
+    match parseNat? o, parseRatList? a, parseRatList? x, parseRatList? y with
+    | some o, some a, some x, some y =>
+      if a.length != st.pn || x.length != st.pn || y.length != st.pn then (st, "bad-op") else
+      let ms := modes (ofList a st.pn) (ofList x st.pn) (ofList y st.pn) o
+      let nulls := maxAbs (ms.flatMap fun m => toList (perfectMat st.pT st.pTinv st.pc m))
+      let scale := maxAbs (ms.flatMap fun m => toList m)
+      (st, s!"ok nulls={showRat nulls} scale={showRat scale}")
+    | _, _, _, _ => (st, "bad-op")
+  | ["papply", e] =>
+    match parseRatList? e with
+    | some e =>
+      if e.length != st.pn then (st, "bad-op") else
+      let E := ofList e st.pn
+      let out := perfectMat st.pT st.pTinv st.pc E
+      (st, s!"ok {showRatList (toList out)} pin={showRat (powerW st.pw E)} pout={showRat (powerW st.pw out)}")
+    | none => (st, "bad-op")
   | ["lyot", fre, fim, bre, bim, mre, mim, sre, sim, ere, eim] =>
     (st, lyotOp false fre fim bre bim mre mim sre sim ere eim)
   | ["occulted", fre, fim, bre, bim, mre, mim, ere, eim] =>
